@@ -211,6 +211,11 @@ class CallMixin:
     def materialize(self, obj):
         if obj.items is None:
             return obj.arr
+        if obj.kind == 'ipair':
+            a = z3.K(IntS, ip_mk(z3.IntVal(0), z3.IntVal(0)))
+            for k, x in enumerate(obj.items):
+                a = z3.Store(a, k, ip_mk(zint(x[0]), zint(x[1])))
+            return a
         if obj.kind not in ('int', 'val', 'bool'):
             raise Unsupported('materialize array of kind %s' % obj.kind)
         es = kind_sort(obj.kind)
@@ -446,6 +451,15 @@ class CallMixin:
             raise Unsupported('append on %r' % type(recv))
         obj = st.heap[recv.oid]
         v = args[0]
+        if obj.items is not None and obj.pykind == 'list' and isinstance(v, tuple) and len(v) == 2 and all(is_int(x) for x in v) \
+                and all(isinstance(x, tuple) and len(x) == 2 for x in obj.items):
+            # a list of index pairs: kept in array form from the first element on (its length may become symbolic in a loop)
+            arr = z3.K(IntS, ip_mk(z3.IntVal(0), z3.IntVal(0)))
+            for k_, x in enumerate(obj.items):
+                arr = z3.Store(arr, k_, ip_mk(zint(x[0]), zint(x[1])))
+            n0 = len(obj.items)
+            st.heap[recv.oid] = obj.clone(kind='ipair', items=None, arr=z3.Store(arr, n0, ip_mk(zint(v[0]), zint(v[1]))), length=n0 + 1)
+            return None
         if obj.items is not None:
             o2 = obj.clone()
             o2.items.append(v)
@@ -458,6 +472,45 @@ class CallMixin:
         v = self.elem_coerce(obj, v, node, st)
         n = zint(obj.length)
         st.heap[recv.oid] = obj.clone(arr=z3.Store(obj.arr, n, v), length=n + 1)
+        return None
+
+    def me_pop(self, recv, args, kwargs, node, st):
+        if not isinstance(recv, Ref) or args:
+            raise Unsupported('pop on %r / with an index' % type(recv))
+        obj = st.heap[recv.oid]
+        if obj.items is not None:
+            if not obj.items:
+                self.oblige('nonempty', False, st, node, 'pop from an empty list raises IndexError')
+                raise PathEnd()
+            o2 = obj.clone()
+            v = o2.items.pop()
+            o2.length = len(o2.items)
+            st.heap[recv.oid] = o2
+            return v
+        n = zint(obj.length)
+        self.oblige('nonempty', n > 0, st, node, 'pop from an empty list raises IndexError')
+        st.assume(n > 0)
+        v = self.arr_read(obj, n - 1, node, st)
+        st.heap[recv.oid] = obj.clone(length=n - 1)
+        return v
+
+    def me_reverse(self, recv, args, kwargs, node, st):
+        if not isinstance(recv, Ref):
+            raise Unsupported('reverse on %r' % type(recv))
+        obj = st.heap[recv.oid]
+        if obj.items is not None:
+            o2 = obj.clone()
+            o2.items.reverse()
+            st.heap[recv.oid] = o2
+            return None
+        # in-place reversal of a list of symbolic length: a fresh array defined position by position (a definition of the
+        # fresh symbol, not an assumption about the program)
+        n = zint(obj.length)
+        new = fresh('rev_' + (obj.name or 'list'), z3.ArraySort(IntS, kind_sort(obj.kind)))
+        k = z3.Const('rv_k!%d' % self.qcount(), IntS)
+        st.assume(z3.ForAll([k], z3.Implies(z3.And(0 <= k, k < n), z3.Select(new, k) == z3.Select(obj.arr, n - 1 - k)),
+                            patterns=[z3.Select(new, k)]))
+        st.heap[recv.oid] = obj.clone(arr=new)
         return None
 
     def me_lower(self, recv, args, kwargs, node, st):
@@ -599,6 +652,20 @@ class CallMixin:
                     if key not in full:
                         full[key] = getattr(c, 'kwdefaults', {}).get(key)
                 bound[pn] = full
+        # a parameter the callee's contract fixes to a constant (its proof covers that value only) must receive that value
+        for pn, pd in c.params.items():
+            if isinstance(pd, tuple) and len(pd) == 2 and pd[0] == 'const' and pn in bound and not getattr(self, 'frame_only', False):
+                got = bound[pn]
+                if isinstance(got, Opt):
+                    same = b_and(got.isnone, True) if pd[1] is None else (b_and(b_not(got.isnone), compare('==', got.v, pd[1])) if got.v is not None else False)
+                elif got is None or pd[1] is None or isinstance(got, (str, bool)) or isinstance(pd[1], (str, bool)):
+                    same = (got is pd[1]) if (got is None or pd[1] is None or isinstance(pd[1], bool) or isinstance(got, bool)) else (got == pd[1])
+                else:
+                    same = compare('==', got, pd[1])
+                self.oblige('requires', zbool(same) if is_z3(same) else bool(same), st, node,
+                            'the contract of %s covers %s == %r only' % (c.name, pn, pd[1]),
+                            detail='%s.const-%s+%d' % (c.name.split('::')[-1].split('.')[-1], pn,
+                                                       (getattr(node, 'lineno', 0) or 0) - (self.frame.finfo.lineno or 0)))
         if getattr(self, 'frame_only', False):
             # frame analysis: only the callee's write set matters
             for a in c.assigns:
